@@ -75,9 +75,11 @@ Init ==
 \* ------------------------------------------------------------------ the call alphabet
 StakeCallX(u, a, kind, fails, expected, other) ==
   [m |-> "liquid_stake", s |-> u, funds |-> <<<<NatD, a>>>>,
-   mint_to |-> IF kind = "native" THEN NatOf(u) ELSE IF kind = "other" THEN other ELSE "", to_native |-> "none", expected |-> expected,
-   ibc_fail |-> fails, rclass |-> IF SamePrefix THEN "both" ELSE IF kind = "native" THEN "native" ELSE "protocol",
-   r |-> IF kind = "native" THEN NatOf(u) ELSE IF kind = "other" THEN other ELSE u,
+   mint_to |-> CASE kind = "native" -> NatOf(u) [] kind = "staker" -> Staker [] kind = "other" -> other [] OTHER -> "",
+   to_native |-> "none", expected |-> expected,
+   ibc_fail |-> fails, rclass |-> IF SamePrefix THEN "both" ELSE IF kind \in {"native", "staker"} THEN "native" ELSE "protocol",
+   \* "staker": the minted LST goes to the staker's own native address, so that one receiver has transfers of BOTH denoms
+   r |-> CASE kind = "native" -> NatOf(u) [] kind = "staker" -> Staker [] kind = "other" -> other [] OTHER -> u,
    \* "c1" is a 32-byte (contract / ibc-hooks style) account: it must name a mint_to address
    skind |-> IF u = "c1" THEN "long" ELSE "eoa"]
 StakeCall(u, a, kind, fails) == StakeCallX(u, a, kind, fails, NoAmt, "")
@@ -157,7 +159,7 @@ Withdraw_    == \E u \in Users, b \in BatchIds(w.c) : Do(WithdrawCall(u, b))
 Rewards      == \E a \in RewardAmts : Do(RewardsCall(a, Collector))
 ReturnBatch  == \E b \in Outstanding(w), k \in Returns :
                   LET e == w.c.batches[b].expected
-                      a == CASE k = "exact" -> e [] k = "short" -> e - 1 [] k = "long" -> e + 1
+                      a == CASE k = "exact" -> e [] k = "short" -> e - 1 [] k = "long" -> e + 1 [] k = "one" -> 1
                   IN a > 0 /\ Do(UnstakedCall(b, a, Staker))
 \* deliveries that must be refused: the other hook account, a batch that is not Submitted (pending, or
 \* already Received - a second delivery), direct calls by ordinary accounts
@@ -212,13 +214,17 @@ Forced       == AdminOps /\ \E p \in w.c.pk, u \in Principals :
                   /\ \/ \E sel \in {<<p.seq>>, <<p.seq, p.seq>>} :
                           Do(ForcedCall(u, sel, IF p.rcv = Staker THEN "" ELSE p.rcv))
                      \/ \E q \in w.c.pk : q.seq > p.seq /\ Refundable(q) /\
-                          Do(ForcedCall(u, <<p.seq, q.seq>>, IF p.rcv = Staker THEN "" ELSE p.rcv))
+                          \E sel \in {<<p.seq, q.seq>>, <<p.seq, q.seq, p.seq>>} :
+                             Do(ForcedCall(u, sel, IF p.rcv = Staker THEN "" ELSE p.rcv))
 FeeWithdraw_ == AdminOps /\ \E u \in Principals, a \in {1, w.c.fees, w.c.fees + 1} : a > 0 /\ Do(FeeWithdrawCall(u, a))
 Breaker      == AdminOps /\ \E u \in Principals : Do(BreakerCall(u))
 Resume       == AdminOps /\ w.c.stopped /\ \E u \in Principals, k \in ResumeScales :
-                  LET n == CASE k = "same" -> w.c.N [] k = "down" -> w.c.N - (w.c.N \div 3) [] k = "up" -> w.c.N + 1
+                  LET n == CASE k = "same" -> w.c.N [] k = "down" -> w.c.N - (w.c.N \div 3) [] k = "up" -> w.c.N + 1 [] k = "zerolst" -> 5
+                      \* "zerolst": a positive staked total with NO LST (ownerless stake, swept to fees by the next stake)
+                      l == IF k = "zerolst" THEN 0 ELSE w.c.L
                   \* at most one correction of the totals per behaviour (each one opens a new family of totals)
-                  IN (w.c.L = 0 \/ n > 0) /\ (k = "same" \/ w.led.radjN = 0) /\ Do(ResumeCall(u, n, w.c.L, w.c.rewards))
+                  IN (l = 0 \/ n > 0) /\ (k = "same" \/ (w.led.radjN = 0 /\ w.led.radjL = 0)) /\ (k = "zerolst" => w.c.L = 0)
+                     /\ Do(ResumeCall(u, n, l, w.c.rewards))
 Tick         == \E t \in TimePoints : Do(TimeCall(t))
 
 Next == Stake \/ StakeVariants \/ Unstake \/ Submit \/ Withdraw_ \/ Rewards \/ ReturnBatch \/ WrongSender \/ Direct \/ TopUp
